@@ -118,7 +118,17 @@ func (w *world) ridIndex(id string) int {
 	return len(w.ridNames) - 1
 }
 
-func pname(k int) string   { return fmt.Sprintf("c12p%d", k) }
+// proxy names are arbitrary byte strings: the first few indices are deliberately awkward (blanks that
+// TrimSpace would remove and that collide with another index after trimming, upper case, non-ASCII,
+// control characters); the server must treat every spelling as a name of its own
+var oddNames = []string{"c12p", "c12p ", " C12P", "c12-\u00fc\u540d\t", "c12p\n"}
+
+func pname(k int) string {
+	if k >= 0 && k < len(oddNames) {
+		return oddNames[k]
+	}
+	return fmt.Sprintf("c12p%d", k)
+}
 func tagOf(sid int) string { return fmt.Sprintf("s%d", sid) }
 func sidOfTag(t string) int {
 	var n int
@@ -128,8 +138,13 @@ func sidOfTag(t string) int {
 	return n
 }
 func nameIndex(n string) int {
+	for k, o := range oddNames {
+		if o == n {
+			return k
+		}
+	}
 	var k int
-	if _, err := fmt.Sscanf(n, "c12p%d", &k); err != nil {
+	if _, err := fmt.Sscanf(n, "c12p%d", &k); err != nil || pname(k) != n {
 		return 4000000
 	}
 	return k
@@ -361,7 +376,7 @@ func (w *world) seqRegisterStcp(sid, name int) int {
 	if cls == 0 {
 		w.stcpCur[name] = att
 	}
-	w.item(fmt.Sprintf("IAct (AReq %d (RNew %d %d 0%%Z true %s))", sid, name, att, hx.Bool(cls != 3)))
+	w.item(fmt.Sprintf("IAct (AReq %d (RNew %d %d stcpT true %s))", sid, name, att, hx.Bool(cls != 3)))
 	w.item("ISettle")
 	w.outs = append(w.outs, outRec{sid, fmt.Sprintf("ONewProxyResp %d %d %d %d true", sid, name, att, cls)})
 	w.kind(fmt.Sprintf("newproxy-stcp-class-%d", cls))
@@ -389,7 +404,7 @@ func (w *world) seqRegister(sid, name, reuseAtt int, cfgok bool) int {
 		w.ports[att] = 0
 		w.kind("unexpected-run-failure")
 	}
-	w.item(fmt.Sprintf("IAct (AReq %d (RNew %d %d 1%%Z %s %s))", sid, name, att, hx.Bool(cfgok), hx.Bool(runok)))
+	w.item(fmt.Sprintf("IAct (AReq %d (RNew %d %d tcpT %s %s))", sid, name, att, hx.Bool(cfgok), hx.Bool(runok)))
 	w.item("ISettle")
 	w.outs = append(w.outs, outRec{sid, fmt.Sprintf("ONewProxyResp %d %d %d %d true", sid, name, att, cls)})
 	w.kind(fmt.Sprintf("newproxy-class-%d", cls))
